@@ -285,21 +285,184 @@ Qed.
 
 Lemma adj_outer_total orig width : G orig -> forall starts best,
   (forall st, In st starts -> st <= sc_end orig /\ st + width <= length (items orig)) ->
+  reach (fun _ => True) orig (b_args best) ->
   nf (fst (adj_outer ev orig width starts best)).
 Proof.
-  intros Go. induction starts as [|st more IH]; intros best Hs; cbn [adj_outer]; [exact I|].
-  destruct (Hs st (or_introl eq_refl)) as [H1 H2].
-  pose proof (adj_try_total orig width st best Go H1 H2) as N.
-  destruct (adj_try ev orig width st best) as [v s|best'|r s]; [exact I| |contradiction].
-  apply IH. intros st' Hi. apply Hs. right. exact Hi.
+  intros Go. induction starts as [|st more IH]; intros best Hs Rb; cbn [adj_outer].
+  - (* the caller's scope fits the best attempt's ledger: it has the length of the caller's *)
+    destruct (reach_G _ _ _ Rb Go) as [[[Lb _] _] Ib]. destruct Go as [[Lo _] [[S1 S2] _]].
+    destruct (set_scope_some (b_args best) (sc_start orig) (sc_end orig)) as [fin E]; [exact S1|congruence|].
+    rewrite E. exact I.
+  - destruct (Hs st (or_introl eq_refl)) as [H1 H2].
+    pose proof (adj_try_total orig width st best Go H1 H2) as N.
+    pose proof (adj_try_reach (fun _ => True) ev orig orig width st best Hre (reach_refl _ _) Rb) as R.
+    destruct (adj_try ev orig width st best) as [v s|best'|r s]; [exact I| |contradiction].
+    apply IH; [intros st' Hi; apply Hs; right; exact Hi|exact R].
 Qed.
 
 Theorem adjacent_total fi : fi <> None -> total (eval_adjacent ev fi).
 Proof.
   intros Hf s Hg. unfold eval_adjacent. destruct fi as [it|]; [|congruence].
-  apply adj_outer_total; [exact Hg|]. intros st Hi. apply (adj_starts_ok s _ st Hi).
+  apply adj_outer_total; [exact Hg| |apply reach_refl]. intros st Hi. apply (adj_starts_ok s _ st Hi).
 Qed.
 End Adj.
+
+(* ------------------------------------------------------------------ a group is itself a scope-keeping member *)
+(* Whatever a group's member parser does inside the windows the group opens, the group as a whole keeps its caller's
+   scope, the item list and the length of the ledger, and consumes only inside the caller's scope -- on success, on
+   failure (the scope is handed back, fix: commit) and on the never-taken panic exits (they hand back the caller's
+   state).  So a group can be a member of another group: nested groups are covered by everything proved for members. *)
+Section AdjInscope.
+Variable ev : evaluator.
+Hypothesis Hin : ev_inscope ev.
+Hypothesis Hre : ev_reach (fun _ => True) ev.
+
+Section Orig.
+Variable orig : state.
+
+Record W (ta : state) : Prop := mkW {
+  w_items : items ta = items orig;
+  w_len : length (ist ta) = length (ist orig);
+  w_diff : forall i, live orig i -> ~ live ta i -> in_scope orig i = true;
+  w_in : forall i, in_scope ta i = true -> live ta i -> in_scope orig i = true }.
+
+Lemma live_dec s i : {live s i} + {~ live s i}.
+Proof. unfold live. destruct (present_at s i) as [[|]|]; [left; reflexivity|right; discriminate|right; discriminate]. Qed.
+
+(* a window on the caller's ledger whose available items lie in the caller's scope *)
+Lemma W_window ta : ist ta = ist orig -> items ta = items orig ->
+  (forall i, in_scope ta i = true -> live orig i -> in_scope orig i = true) -> W ta.
+Proof.
+  intros Hi Ht Hw.
+  assert (L : forall i, live ta i <-> live orig i) by (intros i; unfold live, present_at, ist_at; rewrite Hi; tauto).
+  split; [exact Ht|rewrite Hi; reflexivity| |].
+  - intros i Ho Hn. exfalso. apply Hn. apply L. exact Ho.
+  - intros i Hs Hl. apply Hw; [exact Hs|apply L; exact Hl].
+Qed.
+
+Lemma W_set_scope a b ta : set_scope orig a b = Some ta ->
+  (forall i, a <= i < b -> live orig i -> in_scope orig i = true) -> W ta.
+Proof.
+  intros E Hw. apply set_scope_fields in E. destruct E as (Hi & Ht & _ & _ & _ & Ha & Hb & _).
+  apply W_window; [exact Ht|exact Hi|]. intros i Hs Hl. apply Hw; [|exact Hl].
+  unfold in_scope in Hs. rewrite Ha, Hb in Hs. apply andb_prop in Hs. destruct Hs as [H1 H2].
+  apply Nat.leb_le in H1. apply Nat.ltb_lt in H2. lia.
+Qed.
+
+Lemma W_ev ta : W ta -> W (snd (ev ta)).
+Proof.
+  intros [Wi Wl Wd Wn]. destruct (Hin ta) as ((S1 & S2) & I1 & L1 & C1).
+  pose proof (fun i => reach_mono (fun _ => True) ta (snd (ev ta)) i (Hre ta)) as M.
+  split; [congruence|congruence| |].
+  - intros i Ho Hn. destruct (live_dec ta i) as [Hl|Hl]; [|apply Wd; assumption].
+    apply Wn; [apply C1; assumption|exact Hl].
+  - intros i Hs Hl. apply Wn; [|apply M; exact Hl]. unfold in_scope in *. rewrite S1, S2 in Hs. exact Hs.
+Qed.
+
+Lemma W_final ta fin : W ta -> set_scope ta (sc_start orig) (sc_end orig) = Some fin -> inrel orig fin.
+Proof.
+  intros [Wi Wl Wd Wn] E. apply set_scope_fields in E. destruct E as (Hi & Ht & _ & _ & _ & Ha & Hb & _).
+  assert (L : forall i, live fin i <-> live ta i) by (intros i; unfold live, present_at, ist_at; rewrite Ht; tauto).
+  split; [split; assumption|]. split; [congruence|]. split; [congruence|].
+  intros i Ho Hn. apply Wd; [exact Ho|]. intros Hl. apply Hn. apply L. exact Hl.
+Qed.
+
+Definition stepW (st : adj_step) : Prop :=
+  match st with AReturn _ fin => inrel orig fin | ANext b => W (b_args b) | AStop _ _ => True end.
+
+Lemma adj_inner_W before : forall fuel ta best, W ta -> W (b_args best) -> stepW (adj_inner ev orig before fuel ta best).
+Proof.
+  induction fuel as [|f IH]; intros ta best Wt Wb; [exact I|].
+  unfold adj_inner; fold adj_inner. pose proof (W_ev ta Wt) as W1.
+  destruct (ev ta) as [r t1]. cbn [snd] in W1. destruct r; try exact I.
+  - destruct (adjacent_scope t1 orig) as [| |a b] eqn:A; try exact I.
+    + destruct (set_scope t1 (sc_start orig) (sc_end orig)) as [fin|] eqn:E; [|exact I]. eapply W_final; eauto.
+    + destruct (set_scope orig a b) as [ta'|] eqn:E; [|exact I].
+      apply IH; [|exact Wb]. apply (W_set_scope a b ta' E).
+      (* up to the first item both ledgers show, what the caller still has was consumed by this attempt: inside the scope *)
+      intros i Hi Ho. unfold adjacent_scope in A. destruct (is_nil (items t1)); [discriminate|].
+      destruct (_ || _); [discriminate|].
+      pose proof (bpf_at (ist t1) (ist orig) (sc_start t1)) as B.
+      destruct (both_present_from (sc_start t1) (skipn (sc_start t1) (ist t1)) (skipn (sc_start t1) (ist orig))) as [off|]; [|discriminate].
+      destruct (_ && _); [discriminate|]. inversion A; subst a b. destruct B as (_ & _ & B3).
+      specialize (B3 i Hi). unfold bp in B3. apply live_pres in Ho. rewrite Ho, andb_true_r in B3.
+      apply (w_diff t1 W1 i); [apply live_pres; exact Ho|]. intros Hl. apply live_pres in Hl. congruence.
+  - destruct (Nat.ltb before (remaining t1)); [exact I|].
+    destruct (Nat.ltb (b_consumed best) (before - remaining t1)); [exact W1|exact Wb].
+Qed.
+
+Lemma cnt_full f a n : (forall i, a <= i < a + n -> f i = true) -> cnt f a n = n.
+Proof. intros H. apply cnt_all. exact H. Qed.
+
+Lemma adj_try_W width start best : sc_start orig <= start -> start <= sc_end orig -> W (b_args best) ->
+  stepW (adj_try ev orig width start best).
+Proof.
+  intros H1 H2 Wb. unfold adj_try.
+  destruct (set_scope orig start (length (items orig))) as [t0|] eqn:E0; [|exact I].
+  apply set_scope_fields in E0. destruct E0 as (I0 & T0 & _).
+  destruct (set_scope t0 start (start + width)) as [sc|]; [|exact I].
+  destruct (Nat.eqb (remaining sc) 0); [exact Wb|].
+  destruct (ev sc) as [r0 sc'].
+  assert (Hgo : stepW (if Nat.eqb (remaining sc) (remaining sc') then ANext best
+                   else match set_scope t0 start (sc_end orig) with
+                        | None => AStop (RPanic P_set_scope) orig
+                        | Some this_arg1 =>
+                          match (if Nat.ltb (remaining this_arg1) (sc_end orig - start)
+                                 then let '(a, b) := adjacently_available_from this_arg1 start in set_scope this_arg1 a b
+                                 else Some this_arg1) with
+                          | None => AStop (RPanic P_set_scope) orig
+                          | Some this_arg2 => adj_inner ev orig (remaining this_arg1) (loop_fuel orig) this_arg2 best
+                          end
+                        end)).
+  { destruct (Nat.eqb (remaining sc) (remaining sc')); [exact Wb|].
+    destruct (set_scope t0 start (sc_end orig)) as [t1|] eqn:E2; [|exact I].
+    pose proof (set_scope_exact _ _ _ _ E2) as R1'. unfold exact in R1'.
+    apply set_scope_fields in E2. destruct E2 as (I2 & T2 & _ & _ & _ & A2 & B2 & _).
+    assert (W1 : W t1).
+    { apply W_window; [congruence|congruence|]. intros i Hs _. unfold in_scope in *. rewrite A2, B2 in Hs.
+      apply andb_prop in Hs. destruct Hs as [X1 X2]. apply Nat.leb_le in X1. apply andb_true_intro. split; [apply Nat.leb_le; lia|exact X2]. }
+    destruct (Nat.ltb (remaining t1) (sc_end orig - start)) eqn:Lt.
+    - destruct (adjacently_available_from t1 start) as [a b] eqn:Av.
+      destruct (set_scope t1 a b) as [t2|] eqn:E3; [|exact I].
+      apply adj_inner_W; [|exact Wb].
+      apply set_scope_fields in E3. destruct E3 as (I3 & T3 & _ & _ & _ & A3 & B3 & _).
+      destruct (adjacently_available_live t1 start) as [Fa Fl]. rewrite Av in Fa, Fl. cbn [fst snd] in Fa, Fl.
+      (* the run of available items from `start` ends before the end of the caller's scope: something there is taken *)
+      assert (Hb : b <= sc_end orig).
+      { destruct (Nat.le_gt_cases b (sc_end orig)) as [Hle|Hgt]; [exact Hle|exfalso].
+        apply Nat.ltb_lt in Lt. rewrite R1', A2, B2, count_present_cnt in Lt.
+        rewrite cnt_full in Lt; [lia|]. intros i Hi. apply live_pres. apply Fl. lia. }
+      apply W_window; [congruence|congruence|]. intros i Hs _. unfold in_scope in *. rewrite A3, B3 in Hs.
+      apply andb_prop in Hs. destruct Hs as [X1 X2]. apply Nat.leb_le in X1. apply Nat.ltb_lt in X2.
+      apply andb_true_intro. split; [apply Nat.leb_le; lia|apply Nat.ltb_lt; lia].
+    - apply adj_inner_W; [exact W1|exact Wb]. }
+  destruct r0; try exact I; exact Hgo.
+Qed.
+
+Lemma W_refl : W orig.
+Proof. apply W_window; auto. Qed.
+
+Lemma adj_outer_inrel width : forall starts best,
+  (forall st, In st starts -> sc_start orig <= st /\ st <= sc_end orig) -> W (b_args best) ->
+  inrel orig (snd (adj_outer ev orig width starts best)).
+Proof.
+  induction starts as [|st more IH]; intros best Hs Wb; cbn [adj_outer].
+  - destruct (set_scope (b_args best) (sc_start orig) (sc_end orig)) as [fin|] eqn:E; cbn [snd]; [|apply inrel_refl].
+    eapply W_final; eauto.
+  - destruct (Hs st (or_introl eq_refl)) as [H1 H2].
+    pose proof (adj_try_W width st best H1 H2 Wb) as N.
+    destruct (adj_try ev orig width st best) as [v fin|b'|r sx]; cbn [snd stepW] in *; [exact N| |apply inrel_refl].
+    apply IH; [intros x Hx; apply Hs; right; exact Hx|exact N].
+Qed.
+End Orig.
+
+Theorem adjacent_inscope fi : ev_inscope (eval_adjacent ev fi).
+Proof.
+  intros s. unfold eval_adjacent. destruct fi as [it|]; [|apply inrel_refl].
+  apply adj_outer_inrel; [|apply W_refl].
+  intros st Hi. unfold adj_starts in Hi. apply filter_In in Hi. destruct Hi as [Hr _]. apply in_seq in Hr. lia.
+Qed.
+End AdjInscope.
 
 (* ------------------------------------------------------------------ the members the theorem covers *)
 Section Members.
@@ -319,6 +482,9 @@ Proof.
     + intros s. rewrite eval_PCon_nil. apply inrel_current.
     + intros s. rewrite eval_PCon_one. specialize (H H0). rewrite evals_cons in H. inversion H; subst. auto.
     + intros s. rewrite eval_PCon_many. apply con_inscope. apply H. exact H0.
+  - (* PAdj: a nested group *) intros s. rewrite eval_PAdj. apply adjacent_inscope.
+    + apply con_inscope. apply H. exact H0.
+    + apply con_reach. apply (proj1 (proj2 (eval_reach_all (fun _ => True) env)) fields (proj1 (proj2 kinds_all) fields)).
   - apply andb_prop in H1. destruct H1. intros s. rewrite eval_POr. apply or_inscope; auto.
   - intros s. rewrite eval_POptional. apply optional_inscope. auto.
   - intros s. rewrite eval_PMany. apply many_inscope. auto.
